@@ -213,6 +213,8 @@ def memo_key_identity(lf):
             emitted = p[1]
         elif p[0] == "int":
             emitted = p[1]
+            if p[3] != "le" and p[5] - p[4] > 1:
+                out.append("the index argument is written %s-endian but readers decode it little-endian: the bytes name a different memo key than the simulation uses" % p[3])
         elif p[0] == "lit" and emitted is None:
             b = p[1]
             if b.endswith(b"\n"):
@@ -279,8 +281,11 @@ def rule_C03(env):
             res.add("R03.c", "emit_and_process/%s/memo-key-identity" % op,
                     "%s: %s - the simulation records the kind of a different memo entry than the one the bytes fetch" % (op, p), op_loc(env, "::emit_and_process"), sample(lf, [p]))
     res.floor("R03.a", 40, "guarded leaves of kind-constrained opcodes")
-    if len(listed) < 17:
-        res.add("R03.a", "floor-ops", "only %d kind-constrained opcodes have an enabled leaf (expected 17+)" % len(listed))
+    # vacuity guard: the kind-constrained opcodes must all have been put through the transition analysis (an opcode whose
+    # guard is unsatisfiable has no enabled leaf and is vacuously fine here - that is C12's business, not C03's)
+    analysed = {op for op, lvs in tr.items() if not isinstance(lvs, Exception) and (spec.spec(op) or {}).get("kinds")}
+    if len(analysed | listed) < 17:
+        res.add("R03.a", "floor-ops", "only %d kind-constrained opcodes were analysed (expected 17+)" % len(analysed | listed))
     bfs = bfs_pass(env, res, "C03")
     coverage_mc(res, env, tr, n, nobl, samples, bfs)
     res.assumptions = ASSUME_PVM + ["helper predicates (is_*_at, count_items_to_mark, has_mark ...) are interpreted, not trusted"]
